@@ -290,3 +290,11 @@ package fsm
 //@   trusted
 //@   modifies ghost(kvHas)
 //@   ensures forall h int, a BSeq :: kvHas(unstakeKey(h, a)) == old(kvHas(unstakeKey(h, a))) && kvHas(pausedKey(h, a)) == old(kvHas(pausedKey(h, a)))
+
+// the swap loop never divides by zero: the counter-chain reserve is positive on entry to the loop
+// and only grows
+//@ func (*StateMachine).HandleDexBatchOrders
+//@   loop 1 invariant[reserve] *x > 0
+//@ func (*StateMachine).EventDexSwap
+//@   trusted
+//@   modifies lib.EventsTracker.Events
